@@ -54,6 +54,7 @@ type pend struct {
 	join      *thread
 	pred      func() bool
 	spinMark  uint64
+	spinSnap  map[*thread]uint64
 	what      string
 }
 
@@ -103,6 +104,7 @@ type sched struct {
 	timers   []*vtimer
 	timerSeq uint64
 	moves    uint64
+	progress uint64 // points reached by non-spinning operations
 
 	prefix  []int
 	trace   []choice
@@ -280,7 +282,13 @@ func (s *sched) point(t *thread, p *pend) {
 	}
 	p.committed = -1
 	if p.kind == opSpin {
-		p.spinMark = s.moves
+		// fair yield: remember how far every other thread has got
+		p.spinSnap = make(map[*thread]uint64, len(s.threads))
+		for _, u := range s.threads {
+			if u != t && !u.done {
+				p.spinSnap[u] = u.moves
+			}
+		}
 	}
 	t.pend = p
 	s.moves++
@@ -319,7 +327,18 @@ func (s *sched) enabled(t *thread, settlePass bool) bool {
 	case opStart, opYield:
 		return true
 	case opSpin:
-		return s.moves > p.spinMark+1 || s.onlySpinners()
+		// a yielding thread runs again only after every other thread that could run
+		// (and is not itself spinning) has moved; if none can, spinners run (livelock
+		// shows up as the horizon)
+		for _, u := range s.threads {
+			if u == t || u.done || u.pend == nil || u.pend.kind == opSpin || u.pend.kind == opSettle {
+				continue
+			}
+			if s.enabled(u, false) && u.moves <= p.spinSnap[u] {
+				return false
+			}
+		}
+		return true
 	case opLock:
 		return !p.mu.held
 	case opRLock:
@@ -558,6 +577,7 @@ func (s *sched) runOnce(r *Run, body func(*Run), prefix []int) execResult {
 	s.timers = nil
 	s.timerSeq = 0
 	s.moves = 0
+	s.progress = 0
 	s.prefix = prefix
 	s.trace = nil
 	s.steps = 0
